@@ -403,6 +403,6 @@ def run(ctx: Ctx) -> None:
 
 
 def replay(data: dict) -> int:
-    print(data.get("what"))
-    print(data.get("replay"))
-    return 0
+    from harness.common import replay_by_rerun
+
+    return replay_by_rerun("C06", run, data)
